@@ -21,7 +21,8 @@ def plans(prop, tier):
         on = ["C02"]
         P = [prof(1, nops=n, pool=80, maxlen=3, alpha=3, pput=45, prem=30, pget=25, pscan=0, piscan=0, pmem=0, pprobe=0, dumpevery=0),
              prof(2, nops=n, pool=60, maxlen=3, alpha=3, mode="prefix", pput=45, prem=30, pget=25, pscan=0, piscan=0, pmem=0, pprobe=0, dumpevery=0),
-             prof(3, nops=n, pool=150, maxlen=2, alpha=8, mode="mix", pput=40, prem=35, pget=25, pscan=0, piscan=0, pmem=0, pprobe=0, dumpevery=0),
+             prof(3, nops=n + 300, pool=400, maxlen=2, alpha=8, mode="mix", pput=65, prem=10, pget=25, pscan=0, piscan=0, pmem=0, pprobe=0, dumpevery=0, psweep=25),
+             prof(5, nops=1100, pool=700, maxlen=6, alpha=8, pput=70, prem=8, pget=20, pscan=0, piscan=0, pmem=0, pprobe=0, dumpevery=0, psweep=12),
              prof(4, nops=n, pool=25, maxlen=9, alpha=2, pput=40, prem=40, pget=20, pscan=0, piscan=0, pmem=0, pprobe=0, dumpevery=0, uniq=50)]
         M = ["MC_Tree_struct7.cfg"] if q else ["MC_Tree_struct7.cfg", "MC_Tree_struct8L.cfg", "MC_Tree_struct9S.cfg"]
     elif prop == "C03":
@@ -42,8 +43,10 @@ def plans(prop, tier):
         on = ["C08"]
         m = 300 if q else 800
         P = [prof(31, nops=m, pool=90, maxlen=3, alpha=3, pput=55, prem=40, pget=0, pscan=0, piscan=0, pmem=5, pprobe=0, dumpevery=6),
-             prof(32, nops=m, pool=60, maxlen=3, alpha=3, mode="prefix", pput=50, prem=45, pget=0, pscan=0, piscan=0, pmem=5, pprobe=0, dumpevery=6),
-             prof(33, nops=m, pool=200, maxlen=2, alpha=8, mode="mix", pput=55, prem=40, pget=0, pscan=0, piscan=0, pmem=5, pprobe=0, dumpevery=8),
+             prof(32, nops=m, pool=60, maxlen=3, alpha=3, mode="prefix", pput=50, prem=45, pget=0, pscan=0, piscan=0, pmem=5, pprobe=0, dumpevery=6, psweep=15),
+             prof(33, nops=m + 300, pool=400, maxlen=2, alpha=8, mode="mix", pput=85, prem=10, pget=0, pscan=0, piscan=0, pmem=5, pprobe=0, dumpevery=7, psweep=25),
+             prof(35, nops=m + 300, pool=300, maxlen=3, alpha=4, pput=85, prem=10, pget=0, pscan=0, piscan=0, pmem=5, pprobe=0, dumpevery=7, psweep=25),
+             prof(36, nops=1100, pool=700, maxlen=6, alpha=8, pput=85, prem=8, pget=0, pscan=0, piscan=0, pmem=2, pprobe=0, dumpevery=25, psweep=12),
              prof(34, nops=m, pool=30, maxlen=2, alpha=3, pput=50, prem=50, pget=0, pscan=0, piscan=0, pmem=0, pprobe=0, dumpevery=3)]
         M = ["MC_Tree_struct7.cfg"] if q else ["MC_Tree_struct7.cfg", "MC_Tree_struct8L.cfg", "MC_Tree_struct9S.cfg"]
     elif prop == "C10":
